@@ -309,6 +309,25 @@ def wire(batch, res):
             sc["script"].append({"t": t, "side": rng.choice(["client", "server"]), "op": "key_update"})
         sc["fates"]["loss"] = min(sc["fates"].get("loss", 0), 0.05)
         sc["fates"]["corrupt_first"] = 0.1
+        if seed % 5 == 0:
+            # every fifth run: resumed session with a lot of 0-RTT data *and* a version change in flight (the client starts
+            # with v1 but prefers v2, the server upgrades): which packet types may carry which version is RFC 9369 4.1
+            sc["opts"].update(resume={}, versions_client=["v2", "v1"], original_version="v1", versions_server=["v2", "v1"])
+            for k in ("retry", "frontend_vn"):
+                sc["opts"].pop(k, None)
+            # the server has forgotten the ticket: full handshake, so its first flight (certificate chain) spans several
+            # datagrams — the client nevertheless emits 0-RTT packets until it has 1-RTT keys
+            sc["opts"]["resume_forget"] = True
+            # the rest of the server's first flight is lost once: the client knows the new version (ServerHello) but has
+            # no 1-RTT keys yet, for about one probe timeout
+            sc["opts"]["certfile"] = "ssl_cert_with_chain.pem"
+            sc["fates"]["forced"] = {"s2c:1": "drop", "s2c:2": "drop", "s2c:3": "drop"}
+            # early data written little by little, so that some of it is still waiting when the server's first
+            # packets (and with them the version change) arrive
+            for i, t in enumerate([0.0, 0.004, 0.011, 0.021, 0.041, 0.061, 0.081, 0.101, 0.151, 0.201]):
+                sc["script"].append({"t": t, "side": "client", "op": "write", "sid": 400 + 4 * i, "n": 1500, "fin": True})
+            sc["script"].sort(key=lambda o: o["t"])
+            res.count("wire_runs_0rtt_with_version_upgrade")
         tm = monitors.TapMonitor()
         fates = simnet.Fates(seed, sc["fates"])
         sim = simnet.SimNet(sc["opts"], fates, sc["script"], [tm], seed=seed, tap=True, horizon=sc["fates"]["adv_seconds"] + 30.0)
